@@ -17,10 +17,19 @@ report, diagnostics (class, position, text) must be equal — for accepted input
 (>= 2 targets without their glue generator section, several invalid configuration values, generate for
 unconfigured / unknown targets, several IDL errors spread over files; set-typed option `default_deriving`);
 the targets each context configures and which "Missing configuration" refusal it gets are predicted by
-the model (`c10.refusal`: registry order filtered by membership, `refusal_set_order_irrelevant`); (iii) generated histories on one API object (context reuse, equal
-and different configurations interleaved, permuted target order, repeated generation, reports) vs
-fresh-process baselines for every (configuration, program, target): the model (`c10.run`) predicts the
+the model (`c10.refusal`: registry order filtered by membership, `refusal_set_order_irrelevant`); accepted cases
+are also generated with the targets in reverse order (same bytes); (iii) generated histories on one API
+object (context reuse, equal and different configurations interleaved, permuted order of all five targets,
+repeated generation, reports, *regeneration* after an edit that keeps every rendered length — members of all
+declarations permuted, same output directory —, sequences of parses of projects in different directories whose
+`@import` / `@extern` names exist next to the importer, in an include directory of some context, in another
+project's directory only, or in several of these) vs fresh-process baselines for every (configuration,
+program, target). Every history program carries documented declarations (Markdown with `@param` over
+multi-word names in several spellings, `@returns`, `@throws`, `@deprecated`): state attached to a parse
+result that every target's renderer reads. The model (`c10.run`) predicts which parses are refused, the
 written paths of every call and which calls equal the baseline; equal content identity => equal digest.
+A failing call is minimised (calls are removed while the difference stays) and keyed by the shape of
+the minimal history. Probe: the validated configuration of every context is the same after the last call.
 
 Specification on the implementation's observation: same (files, configuration, target) => same
 {path: digest} and same diagnostics, whatever the hash seed and the call history.
@@ -30,6 +39,7 @@ from __future__ import annotations
 import functools
 import json
 import random
+import re
 
 import common
 import sysgen
@@ -56,6 +66,10 @@ THEOREMS = [
     "Pydjinni.SysC.generate_history_free",
     "Pydjinni.SysC.runCalls_fromWorld",
     "Pydjinni.SysC.generate_history_free_run",
+    "Pydjinni.SysC.rejected_parse_keeps_results",
+    "Pydjinni.SysC.written_paths_forget_disk",
+    "Pydjinni.SysC.generate_disk_history_free",
+    "Pydjinni.SysC.fingerprint_skip_keeps_stale_content",
     "Pydjinni.SysC.config_leak_counterexample",
     "Pydjinni.SysC.report_accumulates_counterexample",
     "Pydjinni.SysC.applyWrites_comm",
@@ -66,7 +80,7 @@ TRUSTED = ["template fact extractor (Jinja AST walk + return annotations of the 
            "sysworker.py adapter; digests are taken after replacing the sandbox root in the bytes (imported files are named by absolute path in the banner)"]
 
 HASHSEEDS_QUICK = ["0", "1", "2", "3"]
-H_TARGETS = ["cpp", "java", "yaml"]
+H_TARGETS = ["cpp", "java", "yaml", "objc", "cppcli"]
 
 
 # ---------------------------------------------------------------------------------------------------
@@ -196,6 +210,10 @@ def seed_cases(ctx):
             # a set-typed configuration value
             opts["generate"]["default_deriving"] = r.choice([["eq"], ["eq", "ord"], ["ord", "eq"]])
         files = dict(prog["files"])
+        if i % 2 == 1:
+            # documented declarations: Markdown tokens attached to the parse result, rendered by every target
+            files[prog["root"]] += render_doc(doc_decls(r, "doc_s"))
+            prog["features"] = sorted(set(prog["features"]) | {"documented"})
         if i % 7 == 3:
             # a program with diagnostics: the same errors, in the same order, under every seed
             files[prog["root"]] += "\nbroken = record { a: no_such_type; b: list<also_missing>; }\n"
@@ -293,25 +311,247 @@ def quoted_keys(msg):
     return sorted(q.split(".")[-1] for q in re.findall(r"'([A-Za-z_.]+)'", msg or ""))
 
 
+# -- documented declarations ------------------------------------------------------------------------
+
+PARAM_WORDS = ["latest_reading", "retry_count", "new_listener", "min_level", "user_id_2", "x", "newValue", "Max_Depth", "HTTP_status", "a_b_c", "flag"]
+DOC_TEXTS = ["plain words", "uses `code_span` and *emphasis*", "a [link](https://example.org/a_b) to follow", "**strong** text, with a comma",
+             "mentions latest_reading and retry_count in the text", "first line\ncontinued on a second line", "a list:\n\n- first_item\n- second_item"]
+
+
+def doc_lines(r, ind, commands=()):
+    """comment lines: a text (possibly several lines / paragraphs) followed by block commands"""
+    out = [f"{ind}# {line}".rstrip() for line in r.choice(DOC_TEXTS).split("\n")]
+    for c in commands:
+        out.append(f"{ind}# {c}")
+    return out
+
+
+def doc_decls(r: random.Random, tag: str):
+    """Documented declarations of every kind: [{"head": lines, "members": [lines], "tail": lines}]. The documentation is
+    parsed once per declaration (Markdown tokens attached to the AST node) and rendered by every target: `@param` /
+    `@throws` carry a *name* that each renderer converts to its own identifier style — multi-word names in several
+    spellings, so that the conversions differ between the targets and are not idempotent."""
+    w = lambda: r.choice(DOC_TEXTS[:5])
+    dep = lambda p=0.25: ([f"@deprecated {r.choice(['', 'use the other one', 'since 2.0, see other_item'])}".rstrip()] if r.random() < p else [])
+    ds = []
+
+    def decl(head, members, tail):
+        ds.append({"head": head, "members": members, "tail": tail})
+    decl(doc_lines(r, "", dep(0.15)) + [f"{tag}_level = enum {{"],
+         [doc_lines(r, "    ", dep()) + [f"    {it};"] for it in r.sample(["low_water", "high_water", "mid", "over_the_top"], r.choice([2, 3]))], ["}"])
+    decl(doc_lines(r, "", dep(0.15)) + [f"{tag}_mode = flags {{"],
+         [doc_lines(r, "    ", dep()) + [f"    {it};"] for it in r.sample(["read_only", "write_back", "exec"], r.choice([2, 3]))]
+         + [["    # everything at once", "    every_mode = all;"]], ["}"])
+    fields = r.sample([("sensor_id", "i32"), ("current_level", f"{tag}_level"), ("display_name", "string"), ("measured_ratio", "f64?")], r.choice([2, 3]))
+    decl(doc_lines(r, "", dep(0.15)) + [f"{tag}_reading = record {{"],
+         [doc_lines(r, "    ", dep()) + [f"    {f}: {t};"] for f, t in fields], ["}" + r.choice(["", " deriving(eq)"])])
+    codes = []
+    for c in ["not_found", "too_many_requests"][: r.choice([1, 2])]:
+        ps = r.sample(PARAM_WORDS, r.choice([0, 1, 2]))
+        sig = ("(" + " ".join(f"{p}: {r.choice(['i32', 'string'])}" for p in ps) + ")") if ps else ""
+        codes.append(doc_lines(r, "    ", [f"@param {p} {w()}" for p in ps]) + [f"    {c}{sig};"])
+    decl(doc_lines(r, "") + [f"{tag}_failure = error {{"], codes, ["}"])
+    for k in range(r.choice([1, 2])):
+        tg = r.choice([" +cpp", "", " +java", " +objc", " +cppcli"])
+        methods = []
+        for m in range(r.choice([1, 2, 3])):
+            ps = r.sample(PARAM_WORDS, r.choice([1, 2, 3]))
+            ret = r.choice(["", " -> bool", f" -> {tag}_reading"])
+            thr = r.random() < 0.3
+            cmds = [f"@param {p} {w()}" for p in ps]
+            if r.random() < 0.3:
+                r.shuffle(cmds)
+            if ret and r.random() < 0.8:
+                cmds.append(f"@returns {w()}")
+            if thr:
+                cmds.append(f"@throws {tag}_failure {w()}")
+            cmds += dep()
+            types = [r.choice(["i32", "string", f"{tag}_reading", f"{tag}_level"]) for _ in ps]
+            methods.append(doc_lines(r, "    ", cmds) + [f"    on_event_{m}({', '.join(f'{p}: {t}' for p, t in zip(ps, types))}){' throws ' + tag + '_failure' if thr else ''}{ret};"])
+        decl(doc_lines(r, "", dep(0.15)) + [f"{tag}_listener{k} = interface{tg} {{"], methods, ["}"])
+    ps = r.sample(PARAM_WORDS, 2)
+    decl(doc_lines(r, "", [f"@param {p} {w()}" for p in ps] + [f"@returns {w()}"]) + [f"{tag}_combine = function ({ps[0]}: i32, {ps[1]}: string) -> i32;"], [], [])
+    return ds
+
+
+def render_doc(ds, perm: random.Random | None = None) -> str:
+    """`perm`: the members of every declaration in another order (each with its documentation)"""
+    out = []
+    for d in ds:
+        ms = list(d["members"])
+        if perm is not None and len(ms) > 1:
+            first = list(ms)
+            while ms == first:
+                perm.shuffle(ms)
+        out += d["head"] + [line for m in ms for line in m] + d["tail"]
+    return "\n".join(out) + "\n"
+
+
+_BLOCK = re.compile(r"\{([^{}\n]*;[^{}\n]*)\}")
+
+
+def permute_members(text: str, r: random.Random) -> str:
+    """An edit that keeps the length of everything rendered from a declaration: the members of every one-line body
+    (`{ a; b; c; }`: enum items, flags, record fields, methods, error codes) in another order."""
+    def sub(m):
+        ms = [x.strip() for x in m.group(1).split(";") if x.strip()]
+        if len(ms) > 1:
+            first = list(ms)
+            while ms == first:
+                r.shuffle(ms)
+        return "{ " + " ".join(x + ";" for x in ms) + " }"
+    return _BLOCK.sub(sub, text)
+
+
+# -- projects in different directories that import equally named files ---------------------------------
+
+WS_DIRS = ["wsA", "wsB", "wsC"]
+INC_DIRS = ["incX", "incY"]
+
+
+def import_projects(r: random.Random):
+    """Three projects (`wsA..C/main.pydjinni`) import `shared.pydjinni` and/or pull in `common.yaml`; `shared.pydjinni`
+    may import `deep.pydjinni`. Every one of these names exists, with *different* content (the place is written into the
+    declared types), in a random non-empty subset of {wsA, wsB, wsC, incX, incY}: next to the importer, in an include
+    directory (that some context configures and another does not), only in another project's directory (a fresh
+    context cannot resolve it), or in several of them (candidates for shadowing)."""
+    files = {}
+    places = WS_DIRS + INC_DIRS
+    tys = {"wsA": "i8", "wsB": "i16", "wsC": "i32", "incX": "i64", "incY": "string"}
+    present = {}
+    for name in ("shared.pydjinni", "deep.pydjinni", "common.yaml"):
+        ps = [d for d in places if r.random() < 0.45]
+        if not ps:
+            ps = [r.choice(places)]
+        if name == "shared.pydjinni" and not any(d in WS_DIRS for d in ps):
+            ps.append(r.choice(WS_DIRS))          # at least one project resolves it next to itself (and so leaves a trace)
+        present[name] = ps
+    for d in present["deep.pydjinni"]:
+        files[f"{d}/deep.pydjinni"] = f"lib_deep = record {{ v: {tys[d]}; from_{d.lower()}: bool; }}\n"
+    for d in present["shared.pydjinni"]:
+        deep = r.random() < 0.4
+        files[f"{d}/shared.pydjinni"] = (('@import "deep.pydjinni"\n' if deep else "")
+                                         + f"lib_shared = record {{ key_id: {tys[d]}; from_{d.lower()}: i32;{' d: lib_deep;' if deep else ''} }} deriving(eq)\n")
+    for d in present["common.yaml"]:
+        files[f"{d}/common.yaml"] = sysgen.extern_yaml("ext_common", []).replace("ext/", f"ext_{d.lower()}/").replace("ext_jni_", f"ext_{d.lower()}_jni_")
+    roots = []
+    for d in WS_DIRS:
+        use_shared = r.random() < 0.8
+        use_ext = r.random() < 0.5 or not use_shared
+        heads = (['@extern "common.yaml"'] if use_ext else []) + (['@import "shared.pydjinni"'] if use_shared else [])
+        tag = d.lower()
+        body = [f"user_{tag} = record {{ n: i32;{' k: lib_shared;' if use_shared else ''}{' e: ext_common;' if use_ext else ''} }}",
+                f"svc_{tag} = interface +cpp {{ lookup({'key: lib_shared' if use_shared else 'key: i32'}) -> string; }}"]
+        files[f"{d}/main.pydjinni"] = "\n".join(heads + body) + "\n"
+        roots.append(f"{d}/main.pydjinni")
+    return {"files": files, "roots": roots}
+
+
+def resolve_import(files: dict, importer: str, name: str, include_dirs: list[str]):
+    """the documented search order: the literal path (relative to the working directory = sandbox root), the directory of
+    the importing file, the configured include directories"""
+    import posixpath
+    for cand in [name, posixpath.join(posixpath.dirname(importer), name)] + [posixpath.join(i, name) for i in include_dirs]:
+        cand = posixpath.normpath(cand)
+        if cand in files:
+            return cand
+    return None
+
+
+def expect_accepted(files: dict, root: str, include_dirs: list[str]) -> bool:
+    """whether every `@import` / `@extern` reachable from `root` resolves (the generator's expectation, used only to decide
+    where a history may call `generate`; the verdict compared is that of the fresh-process baseline)"""
+    todo, seen = [root], set()
+    while todo:
+        f = todo.pop()
+        if f in seen:
+            continue
+        seen.add(f)
+        for kind, name in re.findall(r'^@(import|extern) "([^"]*)"', files[f], flags=re.M):
+            t = resolve_import(files, f, name, include_dirs)
+            if t is None:
+                return False
+            if kind == "import":
+                todo.append(t)
+    return True
+
+
 # -- histories ------------------------------------------------------------------------------------
 
-def make_world(r: random.Random):
-    progs = []
-    for name in ("p", "q"):
-        pg = sysgen.ProgGen(r, stress="plain", max_decls=r.choice([2, 4]))
-        progs.append({"root": f"proj/{name}.pydjinni", "text": pg.body(pg.max_decls)})
-    a = sysgen.make_options(r, H_TARGETS, out_kind="rel", out_root="genA", naming="default", report="repA.json", extras=False)
-    b = sysgen.make_options(r, H_TARGETS, out_kind=r.choice(["rel", "split"]), out_root="genB", naming="random", report="repB.json", extras=False)
+def build_world(r: random.Random, parts, imp, inc_a, inc_b):
+    progs, files = [], {}
+    for name, (body, docs) in zip(("p", "q"), parts):
+        root = f"proj/{name}.pydjinni"
+        text = body + render_doc(docs)
+        files[root] = text
+        progs.append({"root": root, "text": text, "write": {root: text}, "kind": "plain"})
+    for j, (body, docs) in enumerate(parts):
+        text = permute_members(body, r) + render_doc(docs, perm=r)
+        progs.append({"root": progs[j]["root"], "text": text, "write": {progs[j]["root"]: text}, "kind": "edited", "of": j})
+    files.update(imp["files"])
+    for root in imp["roots"]:
+        progs.append({"root": root, "text": imp["files"][root], "write": None, "kind": "imports"})
+    a = sysgen.make_options(r, H_TARGETS, out_kind="rel", out_root="genA", naming="default", report="repA.json", extras=False, include_dirs=inc_a)
+    b = sysgen.make_options(r, H_TARGETS, out_kind=r.choice(["rel", "split"]), out_root="genB", naming="random", report="repB.json", extras=False, include_dirs=inc_b)
     b["generate"]["cpp"]["namespace"] = "other::space"
     b["generate"]["cpp"]["header_extension"] = "hxx"
     b["generate"]["java"]["package"] = "com.other"
     c = json.loads(json.dumps(a))          # an equal configuration in a context of its own
-    return {"progs": progs, "options": [a, b, c], "files": {p["root"]: p["text"] for p in progs}}
+    incs = [inc_a, inc_b, inc_a]
+    expect = {(ci, pj): (expect_accepted(files, p["root"], incs[ci]) if p["kind"] == "imports" else True)
+              for ci in range(3) for pj, p in enumerate(progs)}
+    return {"progs": progs, "options": [a, b, c], "files": files, "expect": expect}
 
 
-def make_history(r: random.Random, shape: str):
-    """calls over contexts 0 (A), 1 (B), 2 (A again) and programs 0, 1"""
+def make_world(r: random.Random):
+    """programs 0, 1: unrelated programs `proj/p`, `proj/q` (generated declarations + documented declarations);
+    2, 3: the same files after an edit that permutes the members of every declaration (same output paths, same rendered
+    lengths); 4..6: the projects of `import_projects`. Contexts 0 (A), 1 (B: other directories, naming, include
+    directories), 2 (a configuration equal to A in a context of its own)."""
+    parts = []
+    for name in ("p", "q"):
+        pg = sysgen.ProgGen(r, stress="plain", max_decls=r.choice([2, 4]))
+        parts.append((pg.body(pg.max_decls), doc_decls(r, "doc_" + name)))
+    imp = import_projects(r)
+    inc_a = r.choice([["incX"], ["incX"], ["incY"], []])
+    inc_b = r.choice([["incY", "incX"], ["incX", "incY"], ["incY"]])
+    return build_world(r, parts, imp, inc_a, inc_b)
+
+
+def corpus_world():
+    """Seed-independent world of the classes that once went unnoticed: documented multi-word parameter names rendered by
+    all targets from one parse; an edit that swaps items; an import that only another project's directory (or an include
+    directory *and* another project's directory) can serve. With its histories."""
+    r = random.Random("c10/corpus-world")
+    doc_p = [{"head": ["# how full", "level = enum {"], "members": [["    # nearly empty", "    low_water;"], ["    mid;"], ["    # nearly full", "    high_water;"]], "tail": ["}"]},
+             {"head": ["mode = flags {"], "members": [["    read_only;"], ["    exec;"], ["    write_back;"]], "tail": ["}"]},
+             {"head": ["reading = record {"], "members": [["    sensor_id: i32;"], ["    current_level: level;"]], "tail": ["} deriving(eq)"]},
+             {"head": ["# receives readings", "listener = interface +cpp {"],
+              "members": [["    # called for every reading", "    # @param latest_reading the reading that was just taken", "    # @param retry_count how often the sensor was asked",
+                           "    # @returns whether more readings are wanted", "    on_reading(latest_reading: reading, retry_count: i32) -> bool;"],
+                          ["    # @param min_level readings below are not reported", "    # @deprecated use on_reading", "    set_level(min_level: level);"]], "tail": ["}"]}]
+    doc_q = [{"head": ["failure = error {"], "members": [["    # @param error_code what the device said", "    device_failed(error_code: i32);"], ["    timed_out;"]], "tail": ["}"]},
+             {"head": ["hub = interface {"], "members": [["    # @param new_listener the listener to inform", "    # @throws failure when the device is gone",
+                                                           "    subscribe(new_listener: i32) throws failure;"], ["    close_all();"]], "tail": ["}"]}]
+    files = {"wsA/shared.pydjinni": "lib_shared = record { key_id: i64; scope: string; } deriving(eq)\n",
+             "incX/shared.pydjinni": "lib_shared = record { key_id: i32; } deriving(eq)\n",
+             "wsA/only_here.pydjinni": "lib_local = enum { one; two; }\n",
+             "wsA/main.pydjinni": '@import "shared.pydjinni"\n@import "only_here.pydjinni"\nuser_a = record { k: lib_shared; l: lib_local; }\n',
+             "wsB/main.pydjinni": '@import "shared.pydjinni"\nuser_b = record { k: lib_shared; }\nsvc_b = interface +cpp { lookup(key: lib_shared) -> string; }\n',
+             "wsC/main.pydjinni": '@import "only_here.pydjinni"\nuser_c = record { l: lib_local; }\n'}
+    world = build_world(r, [("", doc_p), ("", doc_q)], {"files": files, "roots": ["wsA/main.pydjinni", "wsB/main.pydjinni", "wsC/main.pydjinni"]}, ["incX"], ["incX"])
+    hists = [("corpus:objc-first", [("parse", 0, 0), ("generate", 0, "objc"), ("generate", 0, "cpp"), ("generate", 0, "java"), ("generate", 0, "cppcli"), ("generate", 0, "yaml")]),
+             ("corpus:regenerate", [("parse", 0, 0), ("generate", 0, "cpp"), ("generate", 0, "java"), ("parse", 0, 2), ("generate", 1, "cpp"), ("generate", 1, "java")]),
+             ("corpus:regenerate-other-context", [("parse", 0, 1), ("generate", 0, "objc"), ("parse", 2, 3), ("generate", 1, "objc")]),
+             ("corpus:imports", [("parse", 0, 4), ("generate", 0, "cpp"), ("parse", 0, 5), ("generate", 1, "cpp"), ("parse", 0, 6)]),
+             ("corpus:imports", [("parse", 1, 6), ("parse", 1, 4), ("parse", 1, 6), ("parse", 1, 5), ("generate", 3, "yaml")])]
+    return world, hists
+
+
+def make_history(r: random.Random, shape: str, world: dict | None = None):
+    """calls over contexts 0 (A), 1 (B), 2 (A again) and the programs of the world"""
     t = lambda: r.choice(H_TARGETS)
+    expect = (world or {}).get("expect", {})
     if shape == "reuse":
         h = [("parse", 0, 0), ("parse", 0, 1), ("generate", 0, t()), ("generate", 1, t()), ("generate", 0, t()), ("report", 1)]
     elif shape == "equal-config-contexts":
@@ -323,19 +563,45 @@ def make_history(r: random.Random, shape: str):
     elif shape == "target-order":
         ts = list(H_TARGETS)
         r.shuffle(ts)
-        h = [("parse", 0, r.choice([0, 1]))] + [("generate", 0, x) for x in ts] + [("generate", 0, ts[0]), ("report", 0)]
+        h = [("parse", r.choice([0, 0, 1]), r.choice([0, 1]))] + [("generate", 0, x) for x in ts] + [("generate", 0, ts[0]), ("report", 0)]
     elif shape == "one-at-a-time":
         h = [("parse", 0, 0), ("generate", 0, t())]
+    elif shape == "regenerate":
+        # generate, edit the IDL file (members permuted: every rendered length stays), generate again into the same directories
+        c1, j = r.choice([0, 0, 1]), r.choice([0, 1])
+        c2 = 2 if (c1 == 0 and r.random() < 0.35) else c1
+        ts = r.sample(H_TARGETS, r.choice([1, 2, 2]))
+        h = [("parse", c1, j)] + [("generate", 0, x) for x in ts] + [("parse", c2, j + 2)] + [("generate", 1, x) for x in reversed(ts)]
+        if r.random() < 0.4:
+            h += [("parse", c1, j), ("generate", 2, ts[0])]
+    elif shape == "imports":
+        # the projects one after the other on one context (sometimes a second one in between)
+        order = [4, 5, 6]
+        r.shuffle(order)
+        if r.random() < 0.5:
+            order.append(r.choice(order[:2]))
+        c0 = r.choice([0, 0, 1])
+        h, k = [], 0
+        for pj in order:
+            ci = c0 if r.random() < 0.85 else r.choice([0, 1, 2])
+            h.append(("parse", ci, pj))
+            if expect.get((ci, pj), True) and r.random() < 0.8:
+                h.append(("generate", k, r.choice(["cpp", "cpp", "java", "objc", "yaml"])))
+            k += 1
     else:  # random
-        h, n = [], 0
+        h, n, okk = [], 0, []
+        nprogs = len((world or {}).get("progs", [0, 1]))
         for _ in range(r.choice([4, 6, 8])):
-            if n == 0 or r.random() < 0.35:
-                h.append(("parse", r.choice([0, 0, 1, 2]), r.choice([0, 1])))
+            if not okk or r.random() < 0.35:
+                c = ("parse", r.choice([0, 0, 1, 2]), r.randrange(nprogs))
+                h.append(c)
+                if expect.get((c[1], c[2]), True):
+                    okk.append(n)
                 n += 1
             elif r.random() < 0.15:
-                h.append(("report", r.randrange(n)))
+                h.append(("report", r.choice(okk)))
             else:
-                h.append(("generate", r.randrange(n), t()))
+                h.append(("generate", r.choice(okk), t()))
     return h
 
 
@@ -343,7 +609,8 @@ def history_job(world, hist):
     calls = []
     for c in hist:
         if c[0] == "parse":
-            calls.append({"op": "parse", "ctx": c[1], "idl": world["progs"][c[2]]["root"]})
+            p = world["progs"][c[2]]
+            calls.append({"op": "parse", "ctx": c[1], "idl": p["root"], **({"write": p["write"]} if p.get("write") else {})})
         elif c[0] == "generate":
             calls.append({"op": "generate", "gc": c[1], "target": c[2]})
         else:
@@ -364,15 +631,119 @@ def restrict(hist, k):
     return out
 
 
-def model_world(world, obs_cfgs, obs_meta, defs_by_prog, tables):
+def sub_history(hist, keep):
+    """the calls `keep` (indices) of a history with the parse results re-indexed; None if a kept call needs a dropped parse"""
+    parses = [i for i, c in enumerate(hist) if c[0] == "parse"]
+    pmap, out = {}, []
+    for i in sorted(keep):
+        c = hist[i]
+        if c[0] == "parse":
+            pmap[parses.index(i)] = len(pmap)
+            out.append(tuple(c))
+        elif c[1] in pmap:
+            out.append((c[0], pmap[c[1]]) + tuple(c[2:]))
+        else:
+            return None
+    return out
+
+
+def parse_view(rec):
+    """what a parse shows: verdict, diagnostics (class, position), and the declarations it hands to the generators with
+    the file and line they come from (which of several equally named files an import resolved to)"""
+    return [rec["ok"], (rec["exc"] or {}).get("cls"), [(d["cls"], d["file"], d["line"], d["col"]) for d in rec["diags"]],
+            [(d["name"], ".".join(d["ns"]), d["kind"], d["src"]["file"], d["src"]["line"]) for d in rec.get("defs", [])]]
+
+
+def classify(hm):
+    """the key of a failing call from the *minimal* history that still shows it (last call = the failing one)"""
+    last = hm[-1]
+    if last[0] == "parse":
+        return "history:parse-differs"
+    k = last[1]
+    parses = [c for c in hm if c[0] == "parse"]
+    if any(c[0] == "generate" and c[1] != k for c in hm[:-1]):
+        return "history:earlier-output"             # what was generated before for another parse result (files on disk, writer state)
+    if any(c[0] == "generate" and c[1] == k for c in hm[:-1]):
+        return "history:generate-after-generate"    # another target generated before from the same parse result
+    if len(parses) > 1:
+        return "history:context-reuse" if any(c[1] == parses[k][1] for i, c in enumerate(parses) if i != k) else "history:other-context"
+    return "history:unexplained"
+
+
+def minimise(ctx, world, hist, idx, differs):
+    """drop calls while the last call still `differs(observation of the last call)`; every round tries all single removals in
+    parallel (a removed parse takes the calls on its result with it)"""
+    h = [tuple(c) for c in hist[: idx + 1]]
+    for _ in range(len(h)):
+        last = len(h) - 1
+        need = {last}
+        if h[last][0] != "parse":
+            need.add([i for i, c in enumerate(h) if c[0] == "parse"][h[last][1]])
+        cands = []
+        for i in range(len(h)):
+            if i in need:
+                continue
+            keep = set(range(len(h))) - {i}
+            if h[i][0] == "parse":
+                k = [j for j, c in enumerate(h) if c[0] == "parse"].index(i)
+                keep -= {j for j, c in enumerate(h) if c[0] != "parse" and c[1] == k}
+            sh = sub_history(h, keep)
+            if sh is not None and len(sh) < len(h):
+                cands.append(sh)
+        if not cands:
+            break
+        res = sysgen.run_jobs(ctx, [history_job(world, c) for c in cands], hashseed="0", tag=f"c10m{len(h)}")
+        good = [c for c, o in zip(cands, res) if "fatal" not in o and len(o["calls"]) == len(c) and differs(o["calls"][-1])]
+        if not good:
+            break
+        h = min(good, key=len)
+    return h
+
+
+def rel_to(root, paths):
+    import os
+    return [os.path.relpath(p, root) if os.path.isabs(p) else p for p in paths]
+
+
+def model_world(world, obs_cfgs, obs_meta, fresh_parse, tables):
+    """`fresh_parse`: (context, program) -> observation of a fresh process that only parses. The model's program is the
+    program *as resolved under the context's configuration*: index = context * #programs + program."""
+    progs = []
+    for ci in range(len(world["options"])):
+        for pj, p in enumerate(world["progs"]):
+            o = fresh_parse.get((ci, pj))
+            if o is None:
+                progs.append({"id": f"unused-{ci}-{pj}", "reads": [p["root"]], "exts": [], "defs": [], "accepted": False})
+                continue
+            rec = o["calls"][0]
+            reads, exts = rel_to(o["root"], o.get("parsed_idl", [])), rel_to(o["root"], o.get("parsed_ext", []))
+            texts = {**world["files"], **(p.get("write") or {})}
+            pid = common.sha(json.dumps([[f, common.sha(texts.get(f, ""))] for f in [p["root"]] + reads + exts]))[:12]
+            progs.append({"id": pid, "reads": reads or [p["root"]], "exts": exts, "defs": rec.get("defs", []), "accepted": bool(rec["ok"])})
     return {"cfgs": [{"gens": g, "supportLib": m["supportLib"], "report": m["report"]} for g, m in zip(obs_cfgs, obs_meta)],
-            "progs": [{"id": common.sha(p["text"])[:12], "reads": [p["root"]], "exts": [], "defs": defs_by_prog.get(i, [])} for i, p in enumerate(world["progs"])],
-            "support": tables["support"]}
+            "progs": progs, "support": tables["support"]}
 
 
-def model_calls(hist):
-    return [{"op": "parse", "ctx": c[1], "prog": c[2]} if c[0] == "parse" else
-            {"op": "generate", "gc": c[1], "target": c[2]} if c[0] == "generate" else {"op": "report", "gc": c[1]} for c in hist]
+def model_calls(hist, nprogs, accepted):
+    """-> (calls for `c10.run`, index of the model call for every call of the history | None). The model's `gc` counts
+    the accepted parses (a refused parse returns nothing); `accepted`: (context, program) -> verdict of the fresh process"""
+    calls, where, mk, n = [], [], {}, 0
+    for c in hist:
+        if c[0] == "parse":
+            k = len(mk)
+            if accepted.get((c[1], c[2]), True):
+                mk[k] = n
+                n += 1
+            else:
+                mk[k] = None
+            where.append(len(calls))
+            calls.append({"op": "parse", "ctx": c[1], "prog": c[1] * nprogs + c[2]})
+        elif mk.get(c[1]) is None:
+            where.append(None)
+        else:
+            where.append(len(calls))
+            calls.append({"op": "generate", "gc": mk[c[1]], "target": c[2]} if c[0] == "generate" else {"op": "report", "gc": mk[c[1]]})
+    return calls, where
 
 
 # ---------------------------------------------------------------------------------------------------
@@ -418,7 +789,38 @@ def run(ctx):
     # ---- (K ii) hash seeds ------------------------------------------------------------------------
     cases = seed_cases(ctx) + refused_cases(ctx)
     seeds = HASHSEEDS_QUICK if ctx.quick else [str(i) for i in range(16)]
-    per_seed = {s: sysgen.run_jobs(ctx, [c[0] for c in cases], hashseed=s, tag="c10s") for s in seeds}
+    from concurrent.futures import ThreadPoolExecutor
+    with ThreadPoolExecutor(max_workers=4) as ex:      # the seeds side by side (each run is a set of worker processes of its own)
+        futs = {s: ex.submit(sysgen.run_jobs, ctx, [c[0] for c in cases], 8, s, 600, "c10s") for s in seeds}
+        per_seed = {s: f.result() for s, f in futs.items()}
+    # the accepted cases once more with the targets in reverse order (same hash seed): same bytes, same diagnostics per target
+    rev_idx = [i for i, (job, meta) in enumerate(cases) if not meta["kind"].startswith("refused:")]
+    rev_jobs = []
+    for i in rev_idx:
+        job = cases[i][0]
+        gens = [c for c in job["calls"] if c["op"] == "generate"]
+        rev_jobs.append({**job, "calls": [c for c in job["calls"] if c["op"] == "parse"] + gens[::-1] + [c for c in job["calls"] if c["op"] == "report"]})
+    rev_res = sysgen.run_jobs(ctx, rev_jobs, hashseed=seeds[0], tag="c10o")
+    for i, job, o in zip(rev_idx, rev_jobs, rev_res):
+        if "fatal" in o:
+            raise RuntimeError(f"worker failed: {o['fatal']}")
+        fwd = per_seed[seeds[0]][i]
+        if "fatal" in fwd:
+            continue
+        ctx.stat("target_order_reversed_runs")
+
+        def per_target(j, ob):
+            return {c.get("target", c["op"]): (rec.get("files", {}), diag_view(rec)) for c, rec in zip(j["calls"], ob["calls"])}
+        a, b = per_target(cases[i][0], fwd), per_target(job, o)
+        bad = sorted(t for t in a if a[t] != b.get(t))
+        if bad:
+            t = bad[0]
+            differing = sorted(p for p in set(a[t][0]) | set(b[t][0]) if a[t][0].get(p) != b[t][0].get(p))
+            ctx.report("nondeterministic:target-order",
+                       f"generating the targets {[c['target'] for c in job['calls'] if c['op'] == 'generate']} instead of the reverse order changes what "
+                       f"'{t}' produces ({len(differing)} file(s) differ, first {differing[:3]})" if differing else
+                       f"generating the targets in reverse order changes the diagnostics of '{t}': {json.dumps(a[t][1])[:200]} vs {json.dumps(b[t][1])[:200]}",
+                       {"job": job, "forward": cases[i][0], "meta": cases[i][1], "seed": seeds[0], "differing": differing[:10], "kind": "order"})
     rawset = 0
     refusal_reqs, refusal_meta, refusal_breaks = [], [], []
     for i, (job, meta) in enumerate(cases):
@@ -479,13 +881,19 @@ def run(ctx):
                    detail=f"{rawset} loops over raw sets")
 
     # ---- (K iii) histories ------------------------------------------------------------------------
-    shapes = ["reuse", "equal-config-contexts", "interleaved", "target-order", "one-at-a-time", "random", "random", "interleaved"]
+    shapes = ["reuse", "equal-config-contexts", "interleaved", "target-order", "regenerate", "imports", "random", "one-at-a-time",
+              "imports", "regenerate", "target-order", "random", "interleaved"]
     hjobs, hmeta, bjobs, bindex = [], [], [], {}
     nworlds = ctx.n(5, 40)
-    for wi in range(nworlds):
-        r = random.Random(f"{ctx.seed}/c10/world/{wi}")
-        world = make_world(r)
-        hists = [(sh, make_history(r, sh)) for sh in shapes[: ctx.n(6, 8)]]
+    worlds = {}
+    for wi in [-1] + list(range(nworlds)):
+        if wi < 0:
+            world, hists = corpus_world()
+        else:
+            r = random.Random(f"{ctx.seed}/c10/world/{wi}")
+            world = make_world(r)
+            hists = [(sh, make_history(r, sh, world)) for sh in shapes[: ctx.n(9, 13)]]
+        worlds[wi] = world
         for sh, h in hists:
             hjobs.append(history_job(world, h))
             hmeta.append({"world": wi, "shape": sh, "hist": h, "w": world})
@@ -516,69 +924,101 @@ def run(ctx):
     for o in allres:
         if "fatal" in o:
             raise RuntimeError(f"worker failed: {o['fatal']}")
+    mutated = [(i, o["config_unchanged"]) for i, o in enumerate(allres) if not all(x is not False for x in o.get("config_unchanged", []))]
+    ctx.obligation("the validated configuration of every context is unchanged by the calls made on it (dump before the first = dump after the last call)",
+                   not mutated, kind="dynamic", detail=f"{len(mutated)} of {len(allres)} jobs changed a context's configuration" +
+                   (f"; first: calls {json.dumps((hjobs + bjobs)[mutated[0][0]]['calls'])[:250]}" if mutated else ""))
     breaks = []
     by_cid = {}
     mreqs = []
+    fresh_parse = {}      # world -> (context, program) -> observation of the fresh process that only parses
+    for (wi, calls), bi in bindex.items():
+        if len(calls) == 1 and calls[0][0] == "parse":
+            fresh_parse.setdefault(wi, {})[(calls[0][1], calls[0][2])] = bres[bi]
     for meta, o in zip(hmeta, hres):
-        defs_by_prog = {}
-        for c, rec in zip(meta["hist"], o["calls"]):
-            if c[0] == "parse" and "defs" in rec:
-                defs_by_prog.setdefault(c[2], rec["defs"])
-        mw = model_world(meta["w"], o["cfg"], o["meta"], defs_by_prog, tables)
+        fp = fresh_parse.get(meta["world"], {})
+        mw = model_world(meta["w"], o["cfg"], o["meta"], fp, tables)
         meta["mw"] = mw
-        mreqs.append({"op": "c10.run", "world": mw, "calls": model_calls(meta["hist"])})
+        meta["mcalls"], meta["mwhere"] = model_calls(meta["hist"], len(meta["w"]["progs"]), {k: bool(v["calls"][0]["ok"]) for k, v in fp.items()})
+        mreqs.append({"op": "c10.run", "world": mw, "calls": meta["mcalls"]})
     manswers = ctx.driver.batch(mreqs)
-    # the model's view of the restricted histories (for reports)
+    pending = []          # failing calls: minimised and keyed after the loop
     for meta, o, m in zip(hmeta, hres, manswers):
         if "error" in m:
             raise RuntimeError(f"driver error {m}")
         h = meta["hist"]
         wi = meta["world"]
+        wrep = {"files": meta["w"]["files"], "options": meta["w"]["options"], "progs": meta["w"]["progs"]}
         ctx.count(key=json.dumps([meta["shape"], h]), nontrivial=len(h) > 2, sample={"shape": meta["shape"], "history": h})
         ctx.stat("history_" + meta["shape"])
-        nparse = -1
         origin = []
-        for idx, (c, rec, mc) in enumerate(zip(h, o["calls"], m["calls"])):
+        desync = False        # a parse verdict differed from the fresh one: the model's numbering of the results no longer applies
+        prev_sizes = {}       # path -> (size, digest) of what earlier calls of this history left there
+        for idx, (c, rec) in enumerate(zip(h, o["calls"])):
+            mc = m["calls"][meta["mwhere"][idx]] if meta["mwhere"][idx] is not None and not desync else None
             if c[0] == "parse":
                 origin.append(c)
-                # ---- specification: a parse gives the same verdict and diagnostics as in a fresh process
+                kind = meta["w"]["progs"][c[2]]["kind"]
+                ctx.stat("parse_" + kind + ("" if rec["ok"] else "_refused"))
+                # ---- specification: a parse gives the same verdict, diagnostics and declarations as in a fresh process
                 b = bres[bindex[(wi, (c,))]]["calls"][0]
-                view = lambda x: [x["ok"], (x["exc"] or {}).get("cls"), [(d["cls"], d["file"], d["line"], d["col"]) for d in x["diags"]]]
-                if view(rec) != view(b):
-                    ctx.report("history:parse-differs", f"parse of program {c[2]} in context {c[1]} gives {view(rec)[:2]} after the history {h[:idx]}, "
-                               f"{view(b)[:2]} in a fresh process",
-                               {"kind": "history", "world": {"files": meta["w"]["files"], "options": meta["w"]["options"]}, "history": h, "call": idx})
+                if parse_view(rec) != parse_view(b):
+                    bv = parse_view(b)
+                    pending.append({"meta": meta, "idx": idx, "differs": (lambda x, bv=bv: parse_view(x) != bv), "key": "history:parse-differs",
+                                    "what": f"parse of program {c[2]} ({meta['w']['progs'][c[2]]['root']}) in context {c[1]} differs from a fresh process in "
+                                            f"{[n for n, x, y in zip(['verdict', 'exception', 'diagnostics', 'declarations / the files they come from'], parse_view(rec), bv) if x != y]}: "
+                                            f"accepted={rec['ok']} with {len(rec['diags'])} diagnostic(s) and {len(parse_view(rec)[3])} declaration(s) here, "
+                                            f"accepted={bv[0]} with {len(bv[2])} and {len(bv[3])} in the fresh process",
+                                    "replay": {"kind": "history", "world": wrep, "history": h, "call": idx}})
+                    if rec["ok"] != b["ok"]:
+                        desync = True
+                elif mc is not None and mc["kind"] != ("parsed" if rec["ok"] else "rejected"):
+                    breaks.append({"history": h, "call": idx, "what": "verdict of a parse", "impl": rec["ok"], "model": mc["kind"]})
                 continue
             k = c[1]
             if k >= len(origin):
                 continue
+            if rec.get("skipped"):
+                ctx.stat("calls_on_a_refused_parse")
+                continue
             # ---- correspondence: paths written by this call, equal content identity => equal digest
-            ipaths = sorted(e[1] for e in rec["log"])
-            mpaths = sorted(p for p, _ in mc.get("files", []))
-            if not rec["ok"] or mc["kind"] != "wrote":
-                breaks.append({"history": h, "call": idx, "what": "outcome", "impl": rec["exc"], "model": mc["kind"]})
-            elif ipaths != mpaths and c[0] == "generate":
-                breaks.append({"history": h, "call": idx, "what": "paths written by the call", "only_impl": sorted(set(ipaths) - set(mpaths))[:4],
-                               "only_model": sorted(set(mpaths) - set(ipaths))[:4]})
+            if mc is not None:
+                ipaths = sorted(e[1] for e in rec["log"])
+                mpaths = sorted(p for p, _ in mc.get("files", []))
+                if not rec["ok"] or mc["kind"] != "wrote":
+                    breaks.append({"history": h, "call": idx, "what": "outcome", "impl": rec["exc"], "model": mc["kind"]})
+                elif ipaths != mpaths and c[0] == "generate":
+                    breaks.append({"history": h, "call": idx, "what": "paths written by the call", "only_impl": sorted(set(ipaths) - set(mpaths))[:4],
+                                   "only_model": sorted(set(mpaths) - set(ipaths))[:4]})
             if c[0] == "generate":
-                for p, cid in mc.get("files", []):
-                    d = rec.get("files", {}).get(p)
-                    if d is not None:
-                        by_cid.setdefault(cid, set()).add(d)
+                if mc is not None:
+                    for p, cid in mc.get("files", []):
+                        d = rec.get("files", {}).get(p)
+                        if d is not None:
+                            by_cid.setdefault(cid, set()).add(d)
                 ctx.stat("generate_calls")
                 # ---- specification: equals the fresh-process result
                 b = bres[bindex[(wi, (origin[k], ("generate", 0, c[2])))]]
                 bfiles = b["calls"][1].get("files", {})
+                bsizes = b["calls"][1].get("sizes", {})
+                # what the call found on disk: a path that held other bytes of the same length is the case a "looks up to date" shortcut gets wrong
+                for p, d in bfiles.items():
+                    if p in prev_sizes and prev_sizes[p][1] != d:
+                        ctx.stat("overwrites_of_other_content" + ("_of_equal_length" if prev_sizes[p][0] == bsizes.get(p) else ""))
+                if any(x[0] == "generate" and x[1] == k and x[2] != c[2] for x in h[:idx]):
+                    ctx.stat("generate_after_another_target_of_the_same_parse")
                 if rec.get("files", {}) != bfiles:
-                    leak = not mc.get("sameAsFresh", True)
+                    leak = bool(mc) and not mc.get("sameAsFresh", True)
                     differing = sorted(p for p in set(bfiles) | set(rec.get("files", {})) if bfiles.get(p) != rec.get("files", {}).get(p))
-                    ctx.report("history:config-of-last-parse" if leak else "history:unexplained",
-                               f"generate('{c[2]}') for parse result {k} differs from a fresh process with the same inputs "
-                               f"({len(differing)} path(s), e.g. {differing[:2]}) after the history {h[:idx]}",
-                               {"kind": "history", "world": {"files": meta["w"]["files"], "options": meta["w"]["options"]}, "history": h, "call": idx,
-                                "differing": differing[:10], "model_predicts_leak": leak})
-                elif not mc.get("sameAsFresh", True):
+                    pending.append({"meta": meta, "idx": idx, "differs": (lambda x, bf=bfiles: x.get("files", {}) != bf),
+                                    "key": "history:config-of-last-parse" if leak else None,
+                                    "what": f"generate('{c[2]}') for parse result {k} ({meta['w']['progs'][origin[k][2]]['root']}, context {origin[k][1]}) differs from a "
+                                            f"fresh process with the same inputs ({len(differing)} path(s), e.g. {differing[:2]})",
+                                    "replay": {"kind": "history", "world": wrep, "history": h, "call": idx, "differing": differing[:10], "model_predicts_leak": leak}})
+                elif mc is not None and not mc.get("sameAsFresh", True):
                     breaks.append({"history": h, "call": idx, "what": "model predicts a configuration leak, implementation equals the fresh result"})
+                for p, d in rec.get("files", {}).items():
+                    prev_sizes[p] = (rec.get("sizes", {}).get(p), d)
             else:  # report
                 ctx.stat("report_calls")
                 sub = restrict(h[: idx + 1], k)
@@ -588,7 +1028,26 @@ def run(ctx):
                     ctx.report("history:report-accumulates",
                                f"the processed-files report written for parse result {k} differs from the report of a fresh process running only "
                                f"that result's calls, after the history {h[:idx]}",
-                               {"kind": "history", "world": {"files": meta["w"]["files"], "options": meta["w"]["options"]}, "history": h, "call": idx})
+                               {"kind": "history", "world": wrep, "history": h, "call": idx})
+    # ---- failing calls: the first of every (provisional key, shape) is minimised; the key is the shape of the minimal history
+    done = set()
+    pending.sort(key=lambda f: (len(f["meta"]["hist"][: f["idx"] + 1]), f["idx"]))
+    for f in pending:
+        h, idx = f["meta"]["hist"], f["idx"]
+        group = (f["key"], h[idx][0], classify([tuple(c) for c in h[: idx + 1]]))
+        if f["key"] is None or f["key"] == "history:parse-differs":
+            if group not in done and len(done) < 4:
+                done.add(group)
+                hm = minimise(ctx, f["meta"]["w"], h, idx, f["differs"])
+                f["replay"]["history"], f["replay"]["call"], f["replay"]["full_history"] = hm, len(hm) - 1, h[: idx + 1]
+                f["key"] = f["key"] or classify(hm)
+                f["what"] += f" after the history {hm[:-1]} (minimal: no call can be left out)"
+            else:
+                f["key"] = f["key"] or classify([tuple(c) for c in h[: idx + 1]])      # of the whole prefix: not minimised
+                f["what"] += f" after the history {h[:idx]}"
+        else:
+            f["what"] += f" after the history {h[:idx]}"
+        ctx.report(f["key"], f["what"], f["replay"])
     multi = {cid: ds for cid, ds in by_cid.items() if len(ds) > 1}
     if multi:
         cid = sorted(multi)[0]
@@ -607,6 +1066,8 @@ def run(ctx):
         "Dom freshApiPerReport: the report is a function of the whole call history of the API object (known finding)",
         "target_order_irrelevant assumes that different targets write different paths (disjoint output directories, C14)",
         "digests are compared after replacing the sandbox root; hash seeds 0-3 (quick) / 0-15 (thorough)",
+        "which file an @import / @extern resolves to, and whether the front end accepts a program, is taken from the fresh-process parse of the same (configuration, program) (the search order itself is C16's); the model's program is the program as resolved under that configuration",
+        "regeneration histories edit the IDL between two runs of one API object; output of a *different process* left in the directories is covered only through the same file system state (C08's regeneration stream uses a second API object)",
     ]
 
 
@@ -617,16 +1078,23 @@ def replay(ctx, body):
         print(json.dumps({"seeds": body["seeds"], "equal": same,
                           "differing": sorted(p for p in outs[0]["files"] if outs[0]["files"].get(p) != outs[1]["files"].get(p))[:10]}, indent=1))
         return same
+    if body.get("kind") == "order":
+        a, b = sysgen.run_jobs(ctx, [body["forward"], body["job"]], workers=2, hashseed=body["seed"], tag="c10r")
+        fa, fb = obs_digest(a)["files"], obs_digest(b)["files"]
+        print(json.dumps({"equal": fa == fb, "differing": sorted(p for p in set(fa) | set(fb) if fa.get(p) != fb.get(p))[:10]}, indent=1))
+        return fa == fb
     if body.get("kind") == "history":
-        w = {"files": body["world"]["files"], "options": body["world"]["options"],
-             "progs": [{"root": p, "text": t} for p, t in sorted(body["world"]["files"].items())]}
+        w = body["world"]
         h = [tuple(c) for c in body["history"]]
         idx = body["call"]
         c = h[idx]
-        origin = [x for x in h[:idx] if x[0] == "parse"]
-        sub = restrict(h[: idx + 1], c[1])
+        sub = restrict(h[: idx + 1], c[1]) if c[0] != "parse" else [c]
         base_calls = [sub[0], sub[-1]] if c[0] == "generate" else sub
         o, b = sysgen.run_jobs(ctx, [history_job(w, h), history_job(w, base_calls)], workers=2, hashseed="0", tag="c10r")
+        if c[0] == "parse":
+            got, want = parse_view(o["calls"][idx]), parse_view(b["calls"][-1])
+            print(json.dumps({"call": c, "equal": got == want, "history": got, "fresh": want}, indent=1)[:3000])
+            return got == want
         got, want = o["calls"][idx].get("files", {}), b["calls"][-1].get("files", {})
         print(json.dumps({"call": c, "equal": got == want, "differing": sorted(p for p in set(got) | set(want) if got.get(p) != want.get(p))[:10]}, indent=1))
         return got == want
